@@ -1,6 +1,6 @@
 use std::{any::TypeId, collections::hash_map::Entry, marker::PhantomData};
 
-use ahash::AHashMap as HashMap;
+use std::collections::HashMap; // VERIF MODEL: std map instead of ahash (never executed by a harness)
 
 use crate::cell::{AtomicRef, AtomicRefMut};
 use crate::{Resource, ResourceId, World};
